@@ -8,9 +8,9 @@ CLAIMED = {
              note="hand model (Propensity.v, Interface.v), correspondence only; reals axioms; Cython ** vs libm pow tolerance 1e-12; rounding outside the theorems",
              tech="Rocq proof over R (list induction, multiplicity-table invariant) + extracted-model correspondence", sec="4/C01"),
  "C03": dict(text="Theorems (coq/Props/C03.v): every entry of S and Sd built by the model of create_reaction/_create_stochiometric_matrices equals count(products) - count(reactants) for any reaction list, any declaration order (row located through the index map); the reported derivative is the sum over reactions of (S+Sd) x rate (over R); initialisation fails iff some parameter has no value. Tied by correspondence on random reaction lists / declaration orders (exact integers, bit-exact derivative) and a count-based oracle.",
-             note="hand model (Builder.v); correspondence only; propensity encodings read from the built model", tech="Rocq proof (association-list and fold lemmas) + extracted-model correspondence", sec="4/C03"),
+             note="hand model (Builder.v); correspondence only; propensity encodings read from the built model", tech="Rocq proof (association-list and fold lemmas) + extracted-model correspondence + sampled cases evaluated inside Coq (vm_compute Examples generated per run)", sec="4/C03"),
  "C20": dict(text="Theorems (coq/Props/C20.v): refinement of the ring buffer to an abstract pending-at-offset table (any arithmetic, any amount monoid); exactly-once / at-the-scheduled-slot for every history of adds and read-and-advances of any length (entries tagged with identities); in-order clock; nearest-slot with clamping over the reals; conservation by binomial partition for every stream. Tied by running the extracted model at doubles against ArrayDelayQueue's py_* API on random op sequences (exact, draw counts included) and an exact-rational abstract-table oracle.",
-             note="hand model (Queue.v), correspondence only; reals axioms for nearest/partition; copy independence observed on the implementation only", tech="Rocq proof (refinement + induction over histories) + extracted-model correspondence", sec="4/C20"),
+             note="hand model (Queue.v), correspondence only; reals axioms for nearest/partition; copy independence observed on the implementation only", tech="Rocq proof (refinement + induction over histories) + extracted-model correspondence + sampled histories evaluated inside Coq over exact rationals (vm_compute Examples generated per run)", sec="4/C20"),
 }
 PENDING_REASON = "check under construction in this round (DESIGN.md section 8 gives the order); not claimed yet"
 try:
